@@ -327,7 +327,7 @@ func runFsCall(pool *wproto.Pool, s *fsState, c *tok.Conc, massive, alias bool) 
 	call := s.Hist[len(s.Hist)-1]
 	rq := wproto.Req{Op: call.Op, Target: filepath.Join(j.root, "t"), Massive: massive, DryRun: call.Dry, Strict: call.Strict, Alias: alias,
 		Branches: nil, Route: call.Route}
-	if call.Op == "mkdir" {
+	if call.Op == "mkdir" || (call.Op == "output" && call.Dry) {
 		rq.Exts = extStrings(call.Exts, c)
 	}
 	if call.Route == "root" {
